@@ -118,6 +118,23 @@ CHECKS = {
               "(harness/drive_C11_op2.py); table CONTENT decoding (GEOM1, BGPDT, ...) is not in scope."),
         technique="TLA+ format grammar (TLC) + replay of every exported encoding through a neutral renderer into the readers; trace validation of shipped files",
     ),
+    "C12": dict(
+        cat="model_checking",
+        text=("specs/NasField.tla: (1) MaxSig(width, sign, exponent) - the number of significant digits the field width allows, for "
+              "the single-precision style (fixed and d.ddd+ee forms) and the double-precision D style - exported as a table over "
+              "exponents -310..310 with its laws checked; (2) the Nastran real-field grammar as a DFA: every string produced by "
+              "format_float8 / format_float16 / format_double16 on the value lattice (both signs x decades x 37 mantissa classes incl. "
+              "k nines that round up across a decade at either rounding stage) is trace-validated by TLC for exact width and grammar; "
+              "nas_sscanf must return the real the string denotes, and the error against the binary64 argument is checked in exact "
+              "rational arithmetic against half a unit (x1.01) of digit MaxSig. (3) card layout laws + enumerated kind-mixes (all up to "
+              "5 fields, boundary lengths 7..60 x 5 patterns): wtcard8/16/16d -> rdcards field for field, line count and continuation "
+              "marks, neighbouring cards neither swallowed nor skipped, fixed form = comma form."),
+        ref="4/C12",
+        note=("Trusted: TLC, fractions.Fraction arithmetic. 'What the width allows' = normalised fixed / exponent forms (moving the "
+              "decimal point to save an exponent digit is not demanded). A genuine defect was repaired (values rounding up into a new "
+              "integer digit lost the decimal point / overflowed the field, fix: cec0786)."),
+        technique="TLA+ grammar DFA + MaxSig table (TLC trace validation of every formatted field) + exhaustive card replay",
+    ),
 }
 
 NOT_YET = {}
